@@ -15,8 +15,8 @@ PROPERTY THEOREMS ONLY.  What is proved here, for every state:
 KNOWN FINDING (recorded, not repaired: two existing tests pin it): 65C02 BRA counts 2 (+1 page)
 instead of the documented 3 (+1).  `cycles_table_65c02_partial` excludes exactly opcode $80 and
 `bra_deviation` proves the deviation, so the exclusion is not wider than the defect.
-The per-opcode assembly `Δcycles = Spec.stepCycles` for all opcodes is NOT proved as one theorem;
-it is checked on every run by the differential (aspect `cyc`).
+The per-opcode assembly `Δcycles = Spec.stepCycles` for every declared opcode is in the second file
+Props/C13b.lean (`cycles_nmos6502`, `cycles_org16`, `cycles_cmos_partial`; generated case analysis).
 -/
 import Py65.Proofs.CyclesOps
 import Py65.Gen.Tables
